@@ -1,3 +1,219 @@
 package checks
 
-func workerMain() {}
+import (
+	"bufio"
+	"bytes"
+	"encoding/json"
+	"fmt"
+	"io"
+	"os"
+	"os/exec"
+	"runtime"
+	"sync"
+	"sync/atomic"
+	"time"
+)
+
+// Worker processes: the supervisor feeds JSON tasks (one per line) to
+// `dtnmc worker <kind>` sub-processes and reads one JSON result line per task.
+// A worker that dies (panic in a background goroutine, fatal OOM) or does not
+// answer within the watchdog is attributed to the task in flight.
+
+var workers = map[string]func(task []byte) []byte{}
+
+// workerInit, if set for a kind, runs once at worker start.
+var workerInit = map[string]func(){}
+
+func workerMain() {
+	if len(os.Args) < 3 {
+		os.Exit(2)
+	}
+	kind := os.Args[2]
+	h, ok := workers[kind]
+	if !ok {
+		fmt.Fprintln(os.Stderr, "unknown worker kind", kind)
+		os.Exit(2)
+	}
+	if f := workerInit[kind]; f != nil {
+		f()
+	}
+	in := bufio.NewReaderSize(os.Stdin, 1<<20)
+	out := bufio.NewWriter(os.Stdout)
+	for {
+		line, err := in.ReadBytes('\n')
+		if len(line) > 0 {
+			res := h(bytes.TrimSpace(line))
+			res = bytes.ReplaceAll(res, []byte("\n"), []byte(" "))
+			out.Write(res)
+			out.WriteByte('\n')
+			out.Flush()
+		}
+		if err != nil {
+			return
+		}
+	}
+}
+
+type poolResult struct {
+	Res     []byte
+	Crashed bool
+	Stderr  string
+}
+
+const poolWatchdog = 120 * time.Second
+
+// runPool executes tasks on n worker processes; handle is called (concurrently)
+// for every task.
+func runPool(kind string, n int, tasks [][]byte, handle func(i int, r poolResult)) {
+	if n <= 0 {
+		n = runtime.NumCPU()
+	}
+	if n > len(tasks) {
+		n = len(tasks)
+	}
+	var next int64 = -1
+	var wg sync.WaitGroup
+	for w := 0; w < n; w++ {
+		wg.Add(1)
+		go func() {
+			defer wg.Done()
+			var p *proc
+			defer func() {
+				if p != nil {
+					p.kill()
+				}
+			}()
+			for {
+				i := int(atomic.AddInt64(&next, 1))
+				if i >= len(tasks) {
+					return
+				}
+				if p == nil {
+					var err error
+					if p, err = startProc(kind); err != nil {
+						handle(i, poolResult{Crashed: true, Stderr: "cannot start worker: " + err.Error()})
+						continue
+					}
+				}
+				res, ok := p.do(tasks[i])
+				if !ok {
+					st := p.stderrTail()
+					p.kill()
+					p = nil
+					handle(i, poolResult{Crashed: true, Stderr: st})
+					continue
+				}
+				handle(i, poolResult{Res: res})
+			}
+		}()
+	}
+	wg.Wait()
+}
+
+type proc struct {
+	cmd    *exec.Cmd
+	in     io.WriteCloser
+	out    *bufio.Reader
+	errBuf *tailBuf
+	lines  chan []byte
+}
+
+type tailBuf struct {
+	mu sync.Mutex
+	b  []byte
+}
+
+func (t *tailBuf) Write(p []byte) (int, error) {
+	t.mu.Lock()
+	t.b = append(t.b, p...)
+	if len(t.b) > 16384 {
+		t.b = t.b[len(t.b)-16384:]
+	}
+	t.mu.Unlock()
+	return len(p), nil
+}
+
+func startProc(kind string) (*proc, error) {
+	exe := os.Getenv("VERIF_BIN")
+	if exe == "" {
+		var err error
+		if exe, err = os.Executable(); err != nil {
+			return nil, err
+		}
+	}
+	cmd := exec.Command(exe, "worker", kind)
+	cmd.Env = append(os.Environ(), "GOMAXPROCS=2")
+	in, err := cmd.StdinPipe()
+	if err != nil {
+		return nil, err
+	}
+	outp, err := cmd.StdoutPipe()
+	if err != nil {
+		return nil, err
+	}
+	tb := &tailBuf{}
+	cmd.Stderr = tb
+	if err := cmd.Start(); err != nil {
+		return nil, err
+	}
+	p := &proc{cmd: cmd, in: in, out: bufio.NewReaderSize(outp, 1<<20), errBuf: tb, lines: make(chan []byte, 1)}
+	go func() {
+		for {
+			line, err := p.out.ReadBytes('\n')
+			if len(line) > 0 && err == nil {
+				p.lines <- line
+			}
+			if err != nil {
+				close(p.lines)
+				return
+			}
+		}
+	}()
+	return p, nil
+}
+
+func (p *proc) do(task []byte) ([]byte, bool) {
+	t := bytes.ReplaceAll(task, []byte("\n"), []byte(" "))
+	if _, err := p.in.Write(append(t, '\n')); err != nil {
+		return nil, false
+	}
+	select {
+	case line, ok := <-p.lines:
+		if !ok {
+			return nil, false
+		}
+		return bytes.TrimSpace(line), true
+	case <-time.After(poolWatchdog):
+		p.errBuf.Write([]byte("\n[supervisor] watchdog: no answer within " + poolWatchdog.String() + " (hang / deadlock)\n"))
+		return nil, false
+	}
+}
+
+func (p *proc) stderrTail() string {
+	// give the dying process a moment to flush its panic trace
+	done := make(chan struct{})
+	go func() { _ = p.cmd.Wait(); close(done) }()
+	select {
+	case <-done:
+	case <-time.After(2 * time.Second):
+	}
+	p.errBuf.mu.Lock()
+	defer p.errBuf.mu.Unlock()
+	return string(p.errBuf.b)
+}
+
+func (p *proc) kill() {
+	_ = p.in.Close()
+	if p.cmd.Process != nil {
+		_ = p.cmd.Process.Kill()
+	}
+	go func() { _ = p.cmd.Wait() }()
+}
+
+func mustJSON(x interface{}) []byte {
+	b, err := json.Marshal(x)
+	if err != nil {
+		panic(err)
+	}
+	return b
+}
